@@ -158,7 +158,7 @@ class HalModel:
         for name, val in self.status.items():
             if self.wellbehaved and name != "Device_Ok":
                 continue
-            yield (I(val), s)
+            yield (I(val), s.set(("ghost", self.kind, "described"), 1 if name == "Device_Ok" else 0))
 
     def drv_close(self, it, s, vals, fr, n):
         caller = it.stack[-2] if len(it.stack) >= 2 else "?"
